@@ -331,6 +331,24 @@ void *__tsan_memcpy(void *d, const void *s, unsigned long n) { log_plain('R', s,
 void *__tsan_memmove(void *d, const void *s, unsigned long n) { log_plain('R', s, (int)n); log_plain('W', d, (int)n); return memmove(d, s, n); }
 void *__tsan_memset(void *d, int c, unsigned long n) { log_plain('W', d, (int)n); return memset(d, c, n); }
 
+/* clang 14 leaves calls to the libc block functions in instrumented code as they are (libtsan would intercept them);
+ * the vrt link wraps them (-Wl,--wrap=memset,...) so that block accesses of librfn code to registered regions are
+ * events like any other plain access. */
+void *__real_memset(void *d, int c, size_t n);
+void *__real_memcpy(void *d, const void *s, size_t n);
+void *__real_memmove(void *d, const void *s, size_t n);
+void *__wrap_memset(void *d, int c, size_t n) { if (cur >= 0 && n) log_plain('W', d, (int)n); return __real_memset(d, c, n); }
+void *__wrap_memcpy(void *d, const void *s, size_t n)
+{
+	if (cur >= 0 && n) { log_plain('R', s, (int)n); log_plain('W', d, (int)n); }
+	return __real_memcpy(d, s, n);
+}
+void *__wrap_memmove(void *d, const void *s, size_t n)
+{
+	if (cur >= 0 && n) { log_plain('R', s, (int)n); log_plain('W', d, (int)n); }
+	return __real_memmove(d, s, n);
+}
+
 /* ---- printing ---- */
 void vrt_print_hb(FILE *f)
 {
